@@ -8,8 +8,10 @@ export VERIF_EVIDENCE_DIR=/tmp/seed-evidence VERIF_REPO=$S VERIF_BUILD=$S-build
 declare -A CH=( [R1]="C07 C08 C01" [R2]="C09 C10 C06" [R3]="C03 C11 C17 C05 C06" [R4]="C13 C14 C12" [R5]="C16 C13 C15 C11" [R6]="C18 C15 C20 C05" )
 for d in benign/R*; do
   id=$(basename $d); grp=${id%-*}
+  case "$id" in *$1*) ;; *) continue;; esac
   git -C $S fetch -q /repo HEAD && git -C $S checkout -q --detach FETCH_HEAD && git -C $S checkout -q -- .
-  if ! git -C $S apply --3way $PWD/$d/patch.diff 2>/dev/null && ! git -C $S apply $PWD/$d/patch.diff 2>/dev/null; then echo "  $id: patch does not apply on the current HEAD"; continue; fi
+  git -C $S reset -q --hard
+  if ! git -C $S apply $PWD/$d/patch.diff 2>/dev/null; then echo "  $id: patch does not apply on the current HEAD"; continue; fi
   for c in ${CH[$grp]}; do
     out=$(./check $c --tier quick 2>&1); rc=$?
     echo "  $id vs $c: exit $rc $(echo "$out" | grep -E "^C[0-9]+:" | sed 's/.*jobs complete, //')"
